@@ -40,6 +40,8 @@ type c10Case struct {
 	InitE []mon.ElemCase `json:"init_elements"`
 	InitS []string       `json:"init_scalars"`
 	Steps []c10Step      `json:"steps"`
+	// Shared (parallel batches): read-only elements that all histories of the batch use as ARGUMENTS (index c10NE + j).
+	Shared []mon.ElemCase `json:"shared_arguments,omitempty"`
 	// Parallel: several independent histories run simultaneously, one goroutine each, on variables of their own; each is
 	// judged step by step against its own model exactly as when run alone.
 	Parallel []*c10Case `json:"parallel,omitempty"`
@@ -76,10 +78,23 @@ type c10Model struct {
 	s [c10NS]*big.Int
 }
 
+// Read-only elements shared by all the histories of a parallel batch (argument index c10NE + j). Set by the batch before
+// its instances start, only read while they run.
+var (
+	c10SharedElems []*secp256k1.Element
+	c10SharedPts   []oracle.Pt
+)
+
 // c10Apply steps the model. It returns ok=false if the step is malformed (harness error).
 func c10Apply(m *c10Model, st *c10Step) {
 	n := oracle.N
-	arg := func() oracle.Pt { return m.e[st.A] }
+	arg := func() oracle.Pt {
+		if st.A >= c10NE {
+			return c10SharedPts[st.A-c10NE]
+		}
+
+		return m.e[st.A]
+	}
 	sarg := func() *big.Int { return m.s[st.A] }
 
 	switch st.Op {
@@ -515,7 +530,7 @@ func c10Generate(c *mon.Ctx) {
 	// histories run simultaneously (8 and 24 at a time, more than cores for the latter)
 	pr := c.SharedRng("parallel")
 
-	for b := 0; b < c.N(12, 300); b++ {
+	for b := 0; b < c.NConc(12, 300); b++ {
 		batch := &c10Case{}
 		for g := 0; g < []int{8, 24}[b%2]; g++ {
 			h := c10GenHistory(pr, pool, 40)
@@ -529,7 +544,21 @@ func c10Generate(c *mon.Ctx) {
 			}
 
 			h.Steps = kept
+
+			// half of the element arguments of Add / Subtract / Set become one of three elements shared by the whole batch
+			for si := range h.Steps {
+				st := &h.Steps[si]
+				if (st.Op == "e.add" || st.Op == "e.sub" || st.Op == "e.set") && st.A >= 0 && pr.Bool() {
+					st.A = c10NE + pr.Intn(3)
+				}
+			}
+
 			batch.Parallel = append(batch.Parallel, h)
+		}
+
+		for k := 0; k < 3; k++ {
+			pv := gen.Fresh(pr)
+			batch.Shared = append(batch.Shared, mon.MkElemCase(pv, gen.DrawRepr(pr, false)))
 		}
 
 		c.Structured(func() any { return batch })
@@ -595,7 +624,11 @@ func c10Exec(im *c10Impl, st *c10Step) {
 	var sa, sb *secp256k1.Scalar
 
 	if st.Op[0] == 'e' && st.A >= 0 && st.Op != "e.mul" {
-		ea = im.e[st.A]
+		if st.A >= c10NE {
+			ea = c10SharedElems[st.A-c10NE]
+		} else {
+			ea = im.e[st.A]
+		}
 	}
 
 	if (st.Op[0] == 's' || st.Op == "e.mul") && st.A >= 0 {
@@ -720,6 +753,26 @@ func c10Run(c *mon.Ctx, csAny any) {
 	cs := csAny.(*c10Case)
 
 	if len(cs.Parallel) > 0 {
+		c10SharedElems, c10SharedPts = nil, nil
+
+		for _, sc := range cs.Shared {
+			c10SharedElems = append(c10SharedElems, sc.Build())
+			c10SharedPts = append(c10SharedPts, sc.P.Pt())
+		}
+
+		snaps := make([]mon.RawSnap, len(c10SharedElems))
+		for i, e := range c10SharedElems {
+			snaps[i] = mon.Snap(e)
+		}
+
+		defer func() {
+			for i, e := range c10SharedElems {
+				if mon.Snap(e) != snaps[i] {
+					c.Fail(fmt.Sprintf("a read-only element shared as an argument by %d histories running side by side changed storage: %s -> %s", len(cs.Parallel), snaps[i], mon.Snap(e)), "history-shared-argument-modified", nil)
+				}
+			}
+		}()
+
 		var cases []any
 		for _, h := range cs.Parallel {
 			cases = append(cases, h)
